@@ -634,7 +634,7 @@ var sharedFieldTable = map[string]struct {
 	"dynamicWalker.err":        {kind: "publish"},
 	"wrappedWriteCloser.err":   {kind: "publish"},
 	"wrappedWriteCloser.once":  {kind: "mutex"},
-	"DiskWriter.dirModTimes":   {kind: "reasoned", funcs: []string{"fsutil.(*DiskWriter).HandleChange", "fsutil.(*DiskWriter).Wait$1"}, reason: "written by the diff goroutine only (HandleChange); read in Wait after that goroutine's doubleWalkDiff returned (R04.5 orders Wait after the diff)"},
+	"DiskWriter.dirModTimes":   {kind: "reasoned", funcs: []string{"fsutil.(*DiskWriter).HandleChange", "fsutil.(*DiskWriter).Wait", "fsutil.(*DiskWriter).Wait$1"}, reason: "written by the diff goroutine only (HandleChange); read in Wait (the field holds the map created by the constructor; its contents are read by the walk callback) after that goroutine's doubleWalkDiff returned (R04.5 orders Wait after the diff)"},
 	"hashedWriter.dgst":        {kind: "reasoned", funcs: []string{"fsutil.(*hashedWriter).Close", "fsutil.(*hashedWriter).Digest"}, reason: "written in Close, which runs before close(done) (R08.4); Digest is read by the notify callback after Wait observed done"},
 	"lazyFileWriter.f":         {kind: "reasoned", funcs: []string{"fsutil.(*lazyFileWriter).Write", "fsutil.(*lazyFileWriter).Close"}, reason: "Write and Close of one pipe are only called from the single receive loop (R08.2, R07.5)"},
 	"lazyFileWriter.fileMode":  {kind: "reasoned", funcs: []string{"fsutil.(*lazyFileWriter).Write", "fsutil.(*lazyFileWriter).Close"}, reason: "as lazyFileWriter.f"},
@@ -663,7 +663,7 @@ func r08_5(c *Ctx, rule string) {
 			if !ok {
 				// a synchronisation primitive is safe for concurrent use whatever it is called
 				switch types.TypeString(f.Type(), nil) {
-				case "sync.Mutex", "sync.RWMutex", "sync.Once", "sync.WaitGroup":
+				case "sync.Mutex", "sync.RWMutex", "sync.Once", "sync.WaitGroup", "sync/atomic.Int64", "sync/atomic.Int32", "sync/atomic.Uint64", "sync/atomic.Uint32", "sync/atomic.Bool", "sync/atomic.Value":
 					c.R.OK(rule, name, "-", "a "+types.TypeString(f.Type(), nil)+": safe for concurrent use")
 					continue
 				}
